@@ -4,8 +4,9 @@
    CipherProvider).  Byte level, branch by branch; every Rust panic site on
    these paths is an explicit [Panic site].  The AEAD is an oracle
    [dec key nonce aad ciphertext : option plaintext] (function argument).
-   The model mirrors the tree WITH the C24 repair (a v5 reference-id request
-   whose payload length is not a multiple of 4 is rejected by the decoder).
+   The C24 repair (a v5 reference-id request whose payload length is not a
+   multiple of 4 is rejected by the decoder) is mirrored when it is present in
+   the tree (constant C24_REPAIR, read from the sources on every run).
    Definitions only. *)
 From V Require Export Model.Bytes.
 From V Require Import Gen.ConstPacket.
@@ -132,7 +133,8 @@ Definition decode_field (tid : Z) (m : bytes) (v5 : bool) : res ef :=
   else if (tid =? T_REFREQ) && v5 then
     do r <- refreq_decode m;
     let '(plen, off) := r in
-    if plen mod 4 =? 0 then Ok (EfRefReq plen off) else Err E_IncorrectLength   (* the C24 repair *)
+    (* the C24 repair: present in the tree iff C24_REPAIR = 1 (read from the sources) *)
+    if (C24_REPAIR =? 0) || (plen mod 4 =? 0) then Ok (EfRefReq plen off) else Err E_IncorrectLength
   else if (tid =? T_REFRESP) && v5 then Ok (EfRefResp m)
   else Ok (EfUnknown tid m).
 
@@ -201,7 +203,7 @@ Definition decode_cookie (dec : oracle) (keys : list bytes) (id_offset : Z) (c :
   else
     do idb <- range c 0 4 S_COOKIE_ID;
     let id := (be idb - id_offset) mod 2 ^ 32 in
-    match nth_error keys (Z.to_nat id) with
+    match (if id <? Z.of_nat (List.length keys) then nth_error keys (Z.to_nat id) else None) with   (* self.keys.get(id) *)
     | None => Ok None
     | Some key =>
         do c4 <- idx c 4 S_COOKIE_LEN;
